@@ -13,6 +13,31 @@ CHECKS = {
   text="Generated-input search: every 1- and 2-byte string, every push form x boundary length x {L-1,L,L+1}, tens of thousands of grammar scripts, mutants, truncations and unterminated blocks per run are parsed by the library and compared with an independent tokenizer (bytes, element sequence, nesting tree); the push helper is compared with the minimal-prefix rule over the whole u64 range. Exploration is the right level: the property quantifies over byte strings and the oracle is executable.",
   note="Trusted: refimpl::script_tok (unit-tested against hand-written vectors), the grammar generator, proptest. No counterexample among the generated cases is not a proof of absence.",
   ref="DESIGN.md §3 C02"),
+ "C03": dict(
+  technique="property-based testing (proptest) with a differential oracle: the replay-protected sighash specification re-implemented from the wire fields; signatures verified by a reference secp256k1 ECDSA",
+  text="Generated-input search over transactions, input indices, the six FORKID flags, subscripts crossing the compact-size boundaries and all u64 values; the library's preimage must be byte-identical to an independent implementation of the specification, and signatures from Transaction::sign must verify under an independent ECDSA verifier over reference SHA-256d of the reference preimage.",
+  note="Trusted: refimpl::sighash (checked against the vectors pinned in /repo/tests/sighash.rs), refimpl::secp/hashes/codec (RFC 6979, NIST, BIP32 vectors), refimpl::wire.",
+  ref="DESIGN.md §3 C03, Appendix B"),
+ "C04": dict(
+  technique="model-based / stateful property testing: bounded-exhaustive operation sequences plus random histories (proptest vec(op)), invariant checked after every step against a fresh parse",
+  text="Every history over the mutation API x sighash/sign calls up to depth 4 (quick) / 5 (thorough) over a 14-letter alphabet is enumerated, plus long random histories; after every step all fourteen flag values x input indices are compared between the live object (on a clone) and Transaction::from_bytes(tx.to_bytes()). This is the level the property asks for: it quantifies over finite interleavings.",
+  note="Trusted: the library's own parser/serialiser as the 'fresh copy' (that is the relation the property states); clones copy the cache. Depth beyond 5 only sampled.",
+  ref="DESIGN.md §3 C04"),
+ "C10": dict(
+  technique="property-based testing (proptest) with a differential oracle: the original SignatureHash algorithm re-implemented from the wire fields",
+  text="Generated-input search over transactions, all input indices, the six legacy flags and subscripts with code separators sprinkled at every nesting depth; the preimage must be byte-identical to an independent implementation of the original algorithm (code separators removed token-wise, scripts blanked, NONE/SINGLE rewriting, ANYONECANPAY isolation).",
+  note="Trusted: refimpl::sighash::legacy_preimage (checked against the legacy vectors pinned in /repo/tests/sighash.rs), refimpl::script_tok, refimpl::wire.",
+  ref="DESIGN.md §3 C10, Appendix B"),
+ "C13": dict(
+  technique="property-based testing (proptest) plus exhaustive enumeration over lengths, differential against std-only reference implementations of the published algorithms",
+  text="Every message length 0..300 for six hashes, every HMAC key length 0..200, every 2-way split of inputs <= 80 bytes through the streaming adapters are enumerated; random contents, multi-way chunkings, PBKDF2 parameters and mnemonics are generated; outputs must equal independent implementations of FIPS 180-4, RIPEMD-160, RFC 2104 and RFC 8018.",
+  note="Trusted: refimpl::hashes (NIST/RFC known-answer vectors; differential against python hashlib/hmac/pbkdf2_hmac in its unit tests).",
+  ref="DESIGN.md §3 C13"),
+ "C20": dict(
+  technique="property-based testing (proptest) plus exhaustive enumeration over lengths, differential against a FIPS-197 reference cipher; round-trip and rejection oracles",
+  text="Four modes, every message length 0..80, counter values at the carry boundaries, truncated ciphertexts and ciphertexts with invalid padding built with the reference cipher; ciphertext must equal the reference, decrypt must invert, invalid CBC input must be rejected.",
+  note="Trusted: refimpl::aes (FIPS-197 App. C, SP 800-38A F.2/F.5 vectors, openssl differential in its unit tests).",
+  ref="DESIGN.md §3 C20"),
 }
 REASON_PENDING = "check not built yet in this revision (planned, see DESIGN.md §3); not claimed until its check runs green on the unchanged tree"
 def main():
